@@ -19,6 +19,7 @@ From WG Require Import Algo.Scc.
 From WG Require Import Algo.Llp.
 From WG Require Import Algo.EssSpec.
 From WG Require Import Algo.Ess.
+From WG Require Import Algo.EssScc.
 From WG Require Import Sort.Pipeline.
 From WG Require Import Transform.Pipelines.
 From WG Require Import PMF.Sched.
@@ -191,6 +192,12 @@ Extraction "model.ml"
   check_values
   run_logged
   run_logged_dm
+  mk_sdata
+  scc_graph
+  run_logged_dir
+  replay_dir
+  best_pivots_dir
+  count_la
   sort_pipeline
   sort_spec
   SortM.boundaries
